@@ -226,7 +226,7 @@ impl OptSpec {
             }
         }
         format!(
-            "bs={} lpc={} po={} pad={} seek={}",
+            "bs={} lpc={} po={} pad={} seek={} fast={}",
             o(&self.block_size),
             match &self.lpc {
                 None => "-".into(),
@@ -239,7 +239,8 @@ impl OptSpec {
                 Some(None) => "none".into(),
                 Some(Some(v)) => v.to_string(),
             },
-            o(&self.seek)
+            o(&self.seek),
+            if self.fast { 1 } else { 0 }
         )
     }
     pub fn build(&self) -> (Out, Option<Options>) {
